@@ -1199,6 +1199,7 @@ func run(ctx *Ctx) *Result {
 			}
 		}
 		if prop == "C10" {
+			settles := 0 // 0 = not yet known, 1 = the uninterrupted run's second compare is empty, 2 = it is not
 			for k, st := range states[:max(len(states)-1, 0)] {
 				res.Count("resume-cuts")
 				out2, _, st2, pan2 := runDrc(st.print(true), c.Spoc)
@@ -1224,6 +1225,32 @@ func run(ctx *Ctx) *Result {
 				}
 				if got := ex2.d.managedView(c.Bindings, c.Routes, c.Routes6); got != wantView {
 					res.Fail(sig("resume_not_converged"), fmt.Sprintf("cut after %d commands: second run ends in\n%s-- want\n%s", k+1, got, wantView), c)
+					continue
+				}
+				// "... and a further compare reports no change" (seeded change C10-W1: a generated object-group of the cut
+				// run stayed behind).  Judged only where the UNINTERRUPTED run settles: a case whose plain second compare is
+				// not empty belongs to C01 (findings F-C01b / F-C01e), not to the cut.
+				if settles == 0 {
+					settles = 1
+					if o, _, s0, p0 := runDrc(final.print(true), c.Spoc); p0 != "" || s0 != 0 || strings.TrimSpace(o) != "" {
+						settles = 2
+					}
+				}
+				if settles == 2 {
+					res.Count("resume-further-compare-skipped:uninterrupted-run-does-not-settle")
+					continue
+				}
+				res.Count("resume-further-compares")
+				out3, _, st3, pan3 := runDrc(ex2.d.print(true), c.Spoc)
+				if pan3 != "" || st3 != 0 {
+					res.Fail(sig("resume_further_compare_failed"), fmt.Sprintf("cut after %d commands: compare after the resumed run: exit %d %s", k+1, st3, pan3), c)
+				} else if strings.TrimSpace(out3) != "" {
+					sg := sig("resume_further_compare_not_empty")
+					if rep, created := repointsBetweenTwins(st, ex2.d, out3); created {
+						sg["twin_group_created_by_resumed_run"] = true
+						sg["further_script_only_repoints_lines_between_twin_groups"] = rep
+					}
+					res.Fail(sg, fmt.Sprintf("cut after %d commands: the compare after the resumed run reports changes:\n%s", k+1, out3), c)
 				}
 			}
 		}
